@@ -13,6 +13,7 @@ from . import builtins as B
 
 class Aw:
     """A library awaitable (result of calling a modelled asyncio API)."""
+    ALWAYS_TRUE = True        # a Python object of this kind is truthy (no __bool__ / __len__)
     def __init__(self, kind, **info):
         self.kind = kind
         self.info = info
@@ -61,6 +62,7 @@ def state_code(v):
 
 class TaskObj:
     """An asyncio.Task handle created by create_task (the coroutine is NOT run by the creator)."""
+    ALWAYS_TRUE = True        # a Python object of this kind is truthy (no __bool__ / __len__)
     def __init__(self, coro, world, name=''):
         self.coro = coro
         self.world = world
@@ -85,6 +87,7 @@ class TaskObj:
 
 
 class LockObj:
+    ALWAYS_TRUE = True        # a Python object of this kind is truthy (no __bool__ / __len__)
     def __init__(self, world, name='lock'):
         self.world = world
         self.name = name
@@ -98,6 +101,7 @@ class LockObj:
 
 
 class QueueObj:
+    ALWAYS_TRUE = True        # a Python object of this kind is truthy (no __bool__ / __len__)
     def __init__(self, world):
         self.world = world
 
@@ -135,6 +139,7 @@ class QueueObj:
 
 
 class WriterObj:
+    ALWAYS_TRUE = True        # a Python object of this kind is truthy (no __bool__ / __len__)
     def __init__(self, world, name='writer'):
         self.world = world
         self.name = name
@@ -159,6 +164,7 @@ class WriterObj:
 
 
 class ReaderObj:
+    ALWAYS_TRUE = True        # a Python object of this kind is truthy (no __bool__ / __len__)
     def __init__(self, world, name='reader'):
         self.world = world
         self.name = name
